@@ -1206,11 +1206,13 @@ class PrintShouldIgnoreTs:
         return True
 
 
-@contract(PL + "PrintStatementRule._is_test_file", props=["C12"], returns=Bool, assumed=FILTER,
+@contract(PL + "PrintStatementRule._is_test_file", props=["C12", "C09"], returns=Bool,
           types=dict(self=PrintRuleT, file_path=Opt(PathT)))
 class PrintIsTestFile:
-    def ensures(result):
-        return True
+    def value(self, file_path):
+        # substring test on the full spelling of the path (what C09 examines)
+        return any(m in (path_str(file_path) if file_path is not None else "None")
+                   for m in (".test.", ".spec.", "test_", "_test.", "/tests/", "/test/"))
 
 
 @contract(PP + "PythonPrintStatementAnalyzer.is_in_main_block", props=["C12"], returns=Bool, assumed=FILTER,
